@@ -465,8 +465,23 @@ class Framer(tasking.Tasker):
     def reactivate(self):
         """set .actives to the .active.outline
            used to restore full outline after conditional aux truncates it
+           outline stays truncated at the main frame of any conditional aux
+           in the outline that is still running
         """
-        self.change(self.active.outline, self.active.human)
+        actives = self.active.outline
+        human = self.active.human
+        for frame in actives:
+            for act in frame.preacts:  # suspender acts have main and aux parms
+                parms = act.parms if isinstance(act.parms, dict) else {}
+                aux = parms.get('aux')
+                if aux is not None and parms.get('main') is frame and not aux.done:
+                    actives = frame.head  # still suspended below this frame
+                    human = frame.headHuman
+                    break
+            else:
+                continue
+            break
+        self.change(actives, human)
 
     def deactivate(self):
         """clear .active .actives
